@@ -14,6 +14,15 @@ from .interp import (NAN, U64, Arr, Interp, Iter, LV, ModelUB, Obj, Opt, OutOfFr
 BSE = "bspline::exceptions::BSplineException"
 
 
+class SetupRefused(Exception):
+    """A valid object that a suite needs could not be built through the public constructors: the constructor
+    refuses valid input (a violation of C10/C11), not an analysis failure."""
+
+    def __init__(self, f, case, outcome):
+        super().__init__("valid input refused by %s: %r" % (f.pqn if f else "?", outcome))
+        self.f, self.case, self.outcome = f, case, outcome
+
+
 class Outcome:
     """Result of one abstract call: a value, an exception, or undefined behaviour in the model."""
     __slots__ = ("kind", "v", "cls", "code", "msg", "site")
@@ -123,6 +132,27 @@ class World:
         d = self.ctor(self.SUP, lambda d: len(d["params"]) == 3, "grid, start, end")
         return self.run(lambda: self.I.construct(d, [box(grid), s, e]), "Support(grid,s,e)")
 
+    def need(self, outcome, what, f=None, case=None):
+        """Value of a setup object that must be constructible (valid by the class invariant)."""
+        if outcome.kind != "val":
+            raise SetupRefused(f, case or dict(object=what), outcome)
+        return outcome.v
+
+    def need_grid(self, values):
+        d = self.ctor(self.GRID, lambda d: len(d["params"]) == 1 and d["params"][0]["type"].startswith("std::vector<"),
+                      "std::vector<T>")
+        return self.need(self.mk_grid(values), "grid", self.I.func(d["id"]), dict(points=len(values)))
+
+    def need_support(self, grid, s, e):
+        d = self.ctor(self.SUP, lambda d: len(d["params"]) == 3, "grid, start, end")
+        return self.need(self.mk_support(grid, s, e), "support", self.I.func(d["id"]), dict(window=(s, e)))
+
+    def need_spline(self, order, support, coeffs):
+        d = self.ctor(self.spline_cls(order), lambda d: len(d["params"]) == 2 and not d.get("copyctor") and
+                      not d.get("movector"), "support, coefficients")
+        return self.need(self.mk_spline(order, support, coeffs), "spline", self.I.func(d["id"]),
+                         dict(order=order, coefficient_arrays=len(coeffs.items)))
+
     def spline_cls(self, order):
         return "bspline::Spline<%s, %d>" % (self.T, order)
 
@@ -136,17 +166,20 @@ class World:
         """Coefficient vector of opaque atoms ('c', name, absolute interval, power)."""
         out = []
         for i in range(nint):
-            out.append(Arr([Sc(value, frozenset([("c", name, s + i, j)])) for j in range(order + 1)]))
+            out.append(Arr([Sc.atom(("c", name, s + i, j), value) for j in range(order + 1)]))
         return Vec(out)
 
     def spline_on(self, name, order, grid, s, e, value=None):
         sup = self.mk_support(grid, s, e)
         if sup.kind != "val":
-            raise AnalysisBroken("cannot build support (%d,%d): %r" % (s, e, sup))
+            d = self.ctor(self.SUP, lambda d: len(d["params"]) == 3, "grid, start, end")
+            raise SetupRefused(self.I.func(d["id"]), dict(window=(s, e)), sup)
         nint = max(e - s, 1) - 1
         sp = self.mk_spline(order, sup.v, self.coeffs(name, order, s, nint, value))
         if sp.kind != "val":
-            raise AnalysisBroken("cannot build a valid spline of order %d on window (%d,%d): %r" % (order, s, e, sp))
+            d = self.ctor(self.spline_cls(order), lambda d: len(d["params"]) == 2 and not d.get("copyctor") and
+                          not d.get("movector"), "support, coefficients")
+            raise SetupRefused(self.I.func(d["id"]), dict(order=order, window=(s, e), coefficient_arrays=nint), sp)
         return sp.v
 
     # -- observation through public getters -------------------------------------------------
@@ -290,6 +323,12 @@ def _job(args):
     try:
         stats = getattr(mod, fname)(None, w, None, **kwargs)
         return ("ok", stats, w.evals, w.I.executed)
+    except SetupRefused as e:
+        f = e.f
+        key = (f.pkey, f.pqn, "valid input is never refused") if f is not None else (("?", 0), "?", "valid input")
+        st = dict(n=1, bad=1, qn=f.qn if f else "?", ub=0, ubfirst=None,
+                  first=dict(case=_plain(e.case), got=repr(e.outcome), want="the object (the state is valid)"))
+        return ("ok", {key: st}, w.evals, w.I.executed)
     except AnalysisBroken as e:
         return ("broken", str(e), 0)
 
